@@ -29,7 +29,7 @@ RULE = ("codec {none, gz, bz2, lz4, zst, zstd} x container {stream, avro, jsonfi
 CODECS = {"none": "", "gz": ".gz", "bz2": ".bz2", "lz4": ".lz4", "zst": ".zst", "zstd": ".zstd"}
 MAGIC = {"gz": b"\x1f\x8b", "bz2": b"BZh", "lz4": b"\x04\x22\x4d\x18", "zst": b"\x28\xb5\x2f\xfd", "zstd": b"\x28\xb5\x2f\xfd"}
 CONTAINERS = {"stream": ("", ".records"), "avro": ("avro://", ".avro"), "jsonfile": ("jsonfile://", ".json"), "csvfile": ("csvfile://", ".csv")}
-NAMINGS = ["path", "neutral", "fileio", "buffered", "bytesio", "readonly", "stdin"]
+NAMINGS = ["path", "neutral", "fileio", "buffered", "bytesio", "readonly", "stdin", "bytesio-at-offset", "fileio-at-offset"]
 SEQS = ["empty", "one", "three", "many"]
 TIER = ["quick"]
 _n = [0]
@@ -110,6 +110,8 @@ def run_case(case):
         return run_cell(case)
     if case["kind"] == "junk":
         return run_junk(case)
+    if case["kind"] == "interleaved-writers":
+        return run_interleaved_writers(case)
     return run_interleaved(case)
 
 
@@ -141,6 +143,24 @@ def read_named(container, naming, path, scheme, raw):
             rd = RecordReader(fileobj=fh)
         elif naming == "bytesio":
             rd = RecordReader(fileobj=io.BytesIO(raw))
+        elif naming == "bytesio-at-offset":
+            # the stream is embedded behind a foreign header; the caller hands over a file object positioned at its start
+            fh = io.BytesIO(b"\x7fFOREIGN-HEADER" + bytes(113) + raw)
+            fh.seek(128)
+            rd = RecordReader(fileobj=fh)
+        elif naming == "fileio-at-offset":
+            emb = path + ".embedded"
+            with open(emb, "wb") as f:
+                f.write(b"\x7fFOREIGN-HEADER" + bytes(113) + raw)
+            try:
+                fh = open(emb, "rb", buffering=0)
+                fh.seek(128)
+                rd = RecordReader(fileobj=fh)
+                got, exc = drain(rd)
+                cls = type(rd).__name__
+                return got, exc, cls
+            finally:
+                os.unlink(emb)
         elif naming == "readonly":
             rd = RecordReader(fileobj=ReadOnly(raw))
         else:
@@ -390,6 +410,47 @@ def run_interleaved(case):
     return {"ev": 2, "h": h, "nt": True, "out": "interleaved:%s" % ("ok" if not viol else "bad"), "viol": viol}
 
 
+def run_interleaved_writers(case):
+    """Two writers of the same codec open at once, written alternately (no shared compressor state may exist)."""
+    from flow.record import RecordWriter
+
+    h = jhash(case)
+    codec = case["codec"]
+    d = os.environ["VERIF_SCRATCH"]
+    viol = []
+    paths = []
+    try:
+        _n[0] += 1
+        paths = [os.path.join(d, "c11w-%d-%d-%d.records%s" % (os.getpid(), _n[0], k, CODECS[codec])) for k in range(2)]
+        writers = [RecordWriter(p) for p in paths]
+        wants = [[], []]
+        for i in range(150):
+            for k in range(2):
+                r = recs.build_record(rs("c/w%d" % k, [["string", "s"], ["varint", "n"]], ["'%s'" % (chr(97 + k) * (20 + i % 7)), str(i + 1000 * k)]))
+                writers[k].write(r)
+                wants[k].append((r._desc.name, int(r.n)))
+            if i % 50 == 0:
+                for w in writers:
+                    w.flush()
+        for w in writers:
+            w.flush()
+            w.close()
+        for k, p in enumerate(paths):
+            try:
+                got = independent_decode("stream", decompress(codec, open(p, "rb").read()))
+                if got != wants[k]:
+                    viol.append(("C11:interleaved-writers-differ:%s" % codec, case, {"writer": k, "got": len(got), "want": len(wants[k])}))
+            except Exception as e:  # noqa: BLE001
+                viol.append(("C11:interleaved-writers-corrupt:%s:%s" % (codec, type(e).__name__), case, {"writer": k, "error": repr(e)[:200]}))
+    finally:
+        for p in paths:
+            try:
+                os.unlink(p)
+            except OSError:
+                pass
+    return {"ev": 2, "h": h, "nt": True, "out": "interleaved-writers:%s" % ("ok" if not viol else "bad"), "viol": viol}
+
+
 def cases(tier):
     for codec, container, seq in itertools.product(CODECS, CONTAINERS, SEQS + (["huge"] if tier == "thorough" else [])):
         if container == "csvfile" and seq == "empty":
@@ -399,6 +460,7 @@ def cases(tier):
         yield {"kind": "junk", "name": name}
     for codec in CODECS:
         yield {"kind": "interleaved", "codec": codec}
+        yield {"kind": "interleaved-writers", "codec": codec}
 
 
 def main(tier, seed, workers=None):
